@@ -1,5 +1,5 @@
 From Coq Require Import List String ZArith Bool Arith.
-From Naunet Require Import Lib.Sexp Lib.ListX Model.OdeGen.
+From Naunet Require Import Lib.Sexp Lib.ListX Lib.PyStr Model.CExpr Model.OdeGen Model.OdeText.
 Import ListNotations.
 Open Scope string_scope.
 
@@ -76,5 +76,23 @@ Definition handle_ode (cmd : string) (args : list sexp) : option sexp :=
                         (csr_triples c));
                  L (map (fun row => L (map bs row)) (pattern zero n jw))])
     | None => Some (err "bad ode input")
+    end
+  else if String.eqb cmd "ode.rowtext" then
+    (* the text of every species row as the generator writes it (C01.rhs_text_is_mass_action):
+       args = the ode input followed by the species aliases; "none" for a row holding a modifier factor *)
+    match args with
+    | [ns_; rs; ms; hs; cs; als] =>
+        match get_input [ns_; rs; ms; hs; cs], get_list get_str als with
+        | Some i, Some als =>
+            let name := fun v => chars ("IDX_" ++ nth v als "?") in
+            let mag := fun n => chars (print_Z (Z.of_nat n)) in
+            Some (L (map (fun s =>
+                            match tterms_of (nth s (st_rhs (ode_terms i)) []) with
+                            | Some ts => A (str (flatten_with mag name (rhs_txt ts)))
+                            | None => A "none"
+                            end) (seq 0 (i_nspec i))))
+        | _, _ => Some (err "bad ode input")
+        end
+    | _ => Some (err "bad args")
     end
   else None.
